@@ -2,7 +2,7 @@
     federation/schema.go (processSchemaVersions, MergeIntrospectionSchemas), plus the
     validity of a query against an introspection schema (what graphql.PrepareQuery and the
     argument parsers of a service check).  Definitions only; proofs are in MergeProofs*.v. *)
-From Coq Require Import List String Bool Arith.
+From Coq Require Import List String Ascii Bool Arith.
 From Thunder Require Import Lib.Json.
 Import ListNotations.
 Open Scope string_scope.
@@ -236,6 +236,52 @@ Definition has_field (s : schema) (ty f : string) : bool :=
 Definition field_services (per : list (string * schema)) (ty f : string) : list string :=
   map fst (filter (fun sv => has_field (snd sv) ty f) per).
 
+(** ConvertVersionedSchemas' federation-key validation (schema.go:42-76, 266-300).  A service asks for the
+    key fields of object O in the input object of its Federation.<svc>_O(keys:) field; every service that is a
+    root for O (has O._federation) must expose each of them.  [fedkeys_ok per merged = false] iff the
+    conversion is refused with "Invalid federation key" (provided it gets that far). *)
+Fixpoint root_name (t : tref) : string :=
+  match t with
+  | TNamed _ n => n
+  | TList t' => root_name t'
+  | TNonNull t' => root_name t'
+  end.
+
+(** the part of a field name after the first '_' (strings.SplitN(name, "_", 2)[1]) *)
+Fixpoint after_underscore (s : string) : option string :=
+  match s with
+  | EmptyString => None
+  | String c r => if Ascii.eqb c "_"%char then Some r else after_underscore r
+  end.
+
+Definition type_has_field (t : itype) (f : string) : bool :=
+  match find_field (t_fields t) f with Some _ => true | None => false end.
+
+(** every root service for [obj] exposes field [k] *)
+Definition key_exposed (per : list (string * schema)) (obj k : string) : bool :=
+  forallb (fun sv =>
+    forallb (fun t => negb (String.eqb (t_name t) obj) || negb (type_has_field t "_federation") || type_has_field t k)
+            (snd sv)) per.
+
+(** the (object, key field) pairs the schema [s] of one service asks for *)
+Definition asked_keys (merged : schema) (s : schema) : list (string * string) :=
+  List.concat (map (fun t =>
+    if String.eqb (t_name t) "Federation" then
+      List.concat (map (fun f =>
+        match after_underscore (f_name f) with
+        | None => []
+        | Some obj =>
+            List.concat (map (fun a =>
+              match find_type merged (root_name (if_type a)) with
+              | Some it => if String.eqb (t_kind it) "INPUT_OBJECT" then map (fun i => (obj, if_name i)) (t_inputs it) else []
+              | None => []
+              end) (f_args f))
+        end) (t_fields t))
+    else []) s).
+
+Definition fedkeys_ok (per : list (string * schema)) (merged : schema) : bool :=
+  forallb (fun sv => forallb (fun ok => key_exposed per (fst ok) (snd ok)) (asked_keys merged (snd sv))) per.
+
 (** * Validity of a query against a schema *)
 
 (** Selections: fields with alias, name, arguments (JSON values) and sub-selections, and inline
@@ -431,7 +477,8 @@ Record case := mk_case {
   c_merged : option json;                          (* MergeIntrospectionSchemas: canonical JSON, None = error *)
   c_field_services : list (string * string * list string);  (* (type, field, sorted services) from ConvertVersionedSchemas *)
   c_queries : list (list sel * list (string * string * bool))
-      (* query, and for (service, version) whether PrepareQuery on that version's built schema accepted it *)
+      (* query, and for (service, version) whether PrepareQuery on that version's built schema accepted it *);
+  c_fedkeys : nat   (* ConvertVersionedSchemas: 1 = accepted, 2 = refused with "Invalid federation key", 0 = anything else *)
 }.
 
 Definition opt_json_eqb (a b : option json) : bool :=
@@ -470,7 +517,18 @@ Definition check_case (c : case) : list nat :=
                          | Some s => Bool.eqb (valid_query thunder_scalar_ok false s (fst qe)) ok
                          | None => false
                          end) (snd qe)) (c_queries c)
-   then [] else [3]).
+   then [] else [3]) ++
+  (match c_fedkeys c, process_versions ss with
+   | 1, Some per => match merge_slice Union (map snd per) with
+                    | Some m => if fedkeys_ok per m then [] else [4]
+                    | None => []
+                    end
+   | 2, Some per => match merge_slice Union (map snd per) with
+                    | Some m => if fedkeys_ok per m then [4] else []
+                    | None => []
+                    end
+   | _, _ => []
+   end).
 
 Fixpoint mismatches_from_sparse (_ : nat) (cs : list (nat * case)) : list (nat * list nat) :=
   match cs with
